@@ -188,6 +188,89 @@ def main(tier, seed):
                               'result of %s after %s differs from the same call on a freshly recorded graph' % (c['call'] + (' ' + c.get('driver', '')), prev),
                               dict(kind='history', prog=prog, case=meta, x_rec=x_rec.tolist(), got=[g.tolist() for g in got], want=[w.tolist() for w in want]))
                 break
+    # every pullback kernel the generator knows: forward, two reverse sweeps; node values byte-identical around each sweep, second sweep =
+    # first sweep = sweep on a fresh graph
+    # recording one graph while ANOTHER graph is evaluated / differentiated in between (a traced function that takes a constant from
+    # cg1.gradient(p0), a nested solver, ...): the outer recording continues and the outer graph replays correctly at other points
+    for it in range(15 if tier == 'quick' else 200):
+        N = rng.randint(1, 3)
+        inner = progs.gen_prog(rng, ap, N=N, nout=1, linalg=False)
+        outer = progs.gen_prog(rng, ap, N=N, nout=1)
+        text = progs.to_text(outer)
+        p0 = progs.rand_point(rng, N); x_rec = progs.rand_point(rng, N)
+        when = rng.choice(['before', 'middle', 'middle', 'end'])
+        rep.count('interleaved recording', when)
+        rep.case(('interleaved', text, when, repr(x_rec.tolist())), True, sample=dict(check='another graph evaluated while recording', when=when, program=text[:200]))
+        try:
+            cgi, fxi, fysi = fresh(ap, inner, progs.rand_point(rng, N))
+            cg = ap.CGraph()
+            fx = ap.Function(x_rec)
+            if when == 'before':
+                c = float(numpy.sum(cgi.gradient(p0)))
+            half = dict(outer, instrs=outer['instrs'])
+            # run the first part, evaluate the other graph, run the rest: done by a hook on the interpreter's register list
+            regs_out = progs.run(outer, fx, ap) if when in ('before', 'end') else None
+            if when == 'middle':
+                k = len(outer['instrs']) // 2
+                import copy
+                first = dict(outer, instrs=outer['instrs'][:k], ret=[])
+                # interpreter state cannot be split from outside: record the two halves through the same register file
+                regs = []
+                progs.run_into(first, fx, ap, regs)
+                c = float(numpy.sum(cgi.gradient(p0)))                    # evaluates and differentiates the OTHER graph now
+                cgi.function([p0])
+                regs_out = progs.run_into(dict(outer, instrs=outer['instrs'][k:]), fx, ap, regs)
+            elif when == 'end':
+                c = float(numpy.sum(cgi.gradient(p0)))
+            y = regs_out[0] * c + regs_out[0]
+            cg.trace_off()
+            cg.independentFunctionList = [fx]; cg.dependentFunctionList = [y]
+        except Exception as e:
+            rep.notes.append('interleaved recording raised %r' % e); continue
+        for _r in range(2):
+            x2 = progs.rand_point(rng, N)
+            try:
+                got = cg.function([x2])[0]
+                d0 = progs.run(outer, x2, ap)[0]
+                want = d0 * c + d0
+                g1 = numpy.asarray(cg.gradient(x2)); cgf, fxf, fysf = fresh(ap, outer, x_rec)
+                g2 = numpy.asarray(cgf.gradient(x2)) * (c + 1)
+            except Exception as e:
+                rep.violation('history:interleaved:exception', 'a graph recorded while another graph was evaluated (%s) cannot be replayed / differentiated: %s' % (when, str(e)[:200]),
+                              dict(kind='history', prog=outer, when=when, exc=repr(e)[:600])); break
+            if not close(got, want) or not close(g1, g2, 1e-8):
+                rep.violation('history:interleaved:' + when, 'a graph recorded while another graph was evaluated (%s) replays %r, the program gives %r' % (when, float(numpy.asarray(got)), float(numpy.asarray(want))),
+                              dict(kind='history', prog=outer, when=when, x_rec=x_rec.tolist(), x=x2.tolist()))
+                break
+    kprogs = progs.kernel_programs(rng, ap, reps=2 if tier == 'quick' else 8)
+    for kname, prog, scale in [(k, p_, sc) for k, p_ in kprogs for sc in (1.0, 2.0 ** -30)]:
+        N = prog['N']
+        text = progs.to_text(prog)
+        D = rng.randint(1, 3); P = rng.randint(2, 3)
+        # ordinary and small magnitudes (there (x + c) - c style temporaries do not round-trip); non-dyadic values
+        x = (progs.rand_utpm_data(rng, D, P, N) + 0.1 * numpy.array([rng.random() for _ in range(D * P * N)]).reshape((D, P, N))) * scale
+        rep.count('kernel program', kname)
+        rep.case(('kernel', text, x.tobytes().hex()), True, sample=dict(check='kernel program: snapshots around two sweeps', program=text[:200], kernel=kname))
+        meta = dict(program=text, buffers=progs.has_buffer(prog), kernel=kname)
+        try:
+            cg, fx, fys = fresh(ap, prog, ap.UTPM(x.copy()))
+            cg.pushforward([ap.UTPM(x.copy())])
+            seed_ = rng.randint(0, 10 ** 6)
+            r = lib.rng_for(seed_, 'seed'); ybars = [progs.rand_utpm_data(r, D, P, 1)[:, :, 0] for _ in fys]
+            before = node_snapshot(cg)
+            cg.pullback([ap.UTPM(y.copy()) for y in ybars]); first = numpy.array(fx.xbar.data, copy=True)
+            mid = node_snapshot(cg)
+            cg.pullback([ap.UTPM(y.copy()) for y in ybars]); second = numpy.array(fx.xbar.data, copy=True)
+            after = node_snapshot(cg)
+            cgf, fxf, fysf = fresh(ap, prog, ap.UTPM(x.copy()))
+            cgf.pushforward([ap.UTPM(x.copy())]); cgf.pullback([ap.UTPM(y.copy()) for y in ybars]); want = numpy.array(fxf.xbar.data, copy=True)
+        except Exception as e:
+            rep.notes.append('kernel program %s raised %r (decided by C03/C05)' % (kname, e)); continue
+        payload = dict(kind='history', prog=prog, case=meta, x=x.tolist(), ybar=[y.tolist() for y in ybars])
+        if not (snapshots_equal(before, mid) and snapshots_equal(mid, after)):
+            rep.violation('node-values-changed:kernel' + (':buffers' if meta['buffers'] else ''), 'a reverse sweep changed forward values stored in the graph (%s)' % kname, payload)
+        elif not (close(first, want) and close(second, want)):
+            rep.violation('history:reverse:kernel', 'repeated reverse sweeps after one forward evaluation differ from the sweep on a fresh graph (%s)' % kname, payload)
     return rep.finish()
 
 
